@@ -5,6 +5,20 @@ assignment (props/_parsegen.py states when a token list is a spelling), each lin
 DefaultArgsParser in strict AND lenient mode on the real code; every view of the returned Args is compared with the
 assignment the line was generated from (oracle known by construction, type-strict).
 
+Space (each part is enumerated completely; quick / thorough):
+  A every option kind alone (59 kinds: value mode x type x nullable x short name x default) in 3 / 5 contexts of command names
+    and arguments, 3 / 5 values per option (+ `null`), multi-valued options with up to 2 values (thorough: also 3);
+  B all 64 ordered pairs of the 8 structural kinds (flag/required/optional/multi x short name) in two contexts, 2 values per
+    option (incl. a value starting with '-'), plus every pair involving a typed kind; repeated multi options;
+  C every legal argument shape required* optional* [multi | required-multi] with <= 2 / 3 single-valued arguments, all-string or
+    exactly one typed argument, x {no, one, two command names (alias, omitted suffix)} x {no option, flag + optional-value
+    option}, 2 / 3 values per argument (incl. dash-leading ones that force a `--` tail, words equal to a command name);
+  D one format (2 names, 2 options, 2 / 3 arguments) split between base format and format in all 36 / 48 ways;
+  E odd but legal names (case-sensitive shorts, `cmd11` argument, names equal to values) + the VERIF_SEED value;
+  T all 64 ordered triples of the short-named structural kinds (thorough: all 512 triples of the 8 kinds, and the 64 in a
+    context with a command name and a multi-valued argument).
+(`--tier smoke` is a development aid, not a claimed bound.)
+
 Demanded (statement): arguments(False)/options(False) are exactly the given elements ("nothing else set");
 arguments(True)/options(True), option(long), option(short), argument(name), argument(position) report the given
 value or the declared default; values have the declared Python type; multi-values in line order;
